@@ -22,6 +22,9 @@
 #include <sys/prctl.h>
 #include <sys/socket.h>
 #include <sys/stat.h>
+#include <sys/mount.h>
+#include <sched.h>
+#include <pwd.h>
 #include <sys/time.h>
 #include <stdio_ext.h>
 #include <wchar.h>
@@ -457,6 +460,13 @@ int main(int argc, char **argv) {
             void (*oh)(int) = signal(SIGHUP, SIG_IGN); void (*oc)(int) = signal(SIGCONT, SIG_IGN); int t = open("/dev/tty", O_RDWR | O_CLOEXEC); if (t >= 0) { ioctl(t, TIOCNOTTY); close(t); } signal(SIGHUP, oh); signal(SIGCONT, oc); }
         else if (!strcmp(tok[0], "ptyslave")) { /* a fresh pty whose slave path goes into the named environment variable; the master stays open here */
             int m = posix_openpt(O_RDWR | O_NOCTTY | O_CLOEXEC); grantpt(m); unlockpt(m); fcntl(m, F_SETFL, O_NONBLOCK); char *nm = mkstr(tok[1]); setenv(nm, ptsname(m), 1); free(nm); }
+        else if (!strcmp(tok[0], "pwwalk")) { /* the caller is in the middle of its own walks through the user and group databases (descriptors open, positions set) */
+            setpwent(); if (getpwent()) {} setgrent(); if (getgrent()) {} }
+        else if (!strcmp(tok[0], "bindover")) { /* bindover <content> <path>: a private mount namespace in which a file with that content is bound over <path> */
+            static int ns_done = 0; static int nbind = 0; char *content = mkstr(tok[1]); char *dst = mkstr(tok[2]); char src[3200]; snprintf(src, sizeof src, "%s/bound-%d", W, nbind++);
+            int bf = open(src, O_WRONLY | O_CREAT | O_TRUNC | O_CLOEXEC, 0644); if (bf >= 0) { if (write(bf, content, strlen(content)) < 0) {} close(bf); }
+            if (!ns_done) { if (unshare(CLONE_NEWNS) || mount("none", "/", NULL, MS_REC | MS_PRIVATE, NULL)) perror("unshare"); ns_done = 1; }
+            if (mount(src, dst, NULL, MS_BIND, NULL)) perror("bindover"); free(content); free(dst); }
         else if (!strcmp(tok[0], "raise")) { kill(getpid(), atoi(tok[1])); }      /* meant for a blocked signal: it stays pending */
         else if (!strcmp(tok[0], "sighandler")) { struct sigaction sa; memset(&sa, 0, sizeof sa); sa.sa_handler = handler_dummy; sigaction(atoi(tok[1]), &sa, NULL); }
         else if (!strcmp(tok[0], "openfds")) { /* occupy N descriptors (close-on-exec), so that whatever the library opens gets a number above N */
